@@ -112,7 +112,7 @@ CapProblems(gg) ==
   ELSE IF Gs[gg].deflimits /\ NeedStates(gg) > DefaultCap(gg) THEN <<"grammar needs more states than the default cap", NeedStates(gg), DefaultCap(gg)>>
   ELSE IF Gs[gg].deflimits /\ NeedItems(gg) > DefaultCap(gg) THEN <<"grammar needs more items per state than the default cap", NeedItems(gg), DefaultCap(gg)>>
   ELSE <<>>
-CapsReported == wit # <<>> \/ (CapProblems(g) = <<>> /\ PrintT(<<"CAPSOK", ToJson([g |-> Gs[g].id, states |-> NeedStates(g), items |-> NeedItems(g), cap |-> Ds[g].state_cap, icap |-> Ds[g].item_cap])>>))
+CapsReported == wit # <<>> \/ (CapProblems(g) = <<>> /\ PrintT(<<"CAPSOK", ToJson([g |-> Gs[g].id, states |-> NeedStates(g), items |-> NeedItems(g), cap |-> Ds[g].state_cap, icap |-> Ds[g].item_cap, defcap |-> DefaultCap(g)])>>))
                 \/ PrintT(<<"CAPS", ToJson([g |-> Gs[g].id, why |-> CapProblems(g)])>>)
 \* conflicts as the specification sees them, for the orchestrator (domain of C01 / C05 / C11)
 ConflictsReported == wit # <<>> \/ PrintT(<<"CONFLICTS", ToJson([g |-> Gs[g].id, n |-> Cardinality(A[g].conflicts), rr |-> Cardinality(A[g].rr), states |-> Len(A[g].states)])>>)
